@@ -51,6 +51,16 @@ pub fn gen(seed: u64, _tier: Tier) -> ScenarioSpec {
         rec.force_gecko = true;
         rec.gecko = Some(GeckoSpec { len: 1 + rng.below(1500) as u32, pseed: rng.next_u64() });
     }
+    // the guard must not depend on there being anybody in the game
+    if rng.chance(1, 40) {
+        rec.ports.clear();
+        if !crate::layout::gte(vv, (2, 2)) {
+            rec.frames.clear();
+        }
+        for f in rec.frames.iter_mut() {
+            f.present = 0;
+        }
+    }
     let mut spec = gen::base_spec(P, "S1", seed, rec);
     spec.compression = *rng.pick(&[Compression::None, Compression::Lz4, Compression::Zstd]);
     spec.sink = gen::gen_sink(&mut rng, false);
